@@ -75,3 +75,21 @@ class _NoShuffle:
 
 def note(k, ch=0):
     return mido.Message('note_on', channel=ch % 16, note=k % 128, velocity=1 + (k // 128) % 127)
+
+
+class WirePort(BaseIOPort):
+    """Loop-back device for the concurrency check: _send writes the message BYTE BY BYTE to a shared wire (one
+    statement per byte, so that a missing lock shows up as byte-wise mixing), _receive moves bytes from the wire into
+    the parser (the pattern of the documentation's custom port and of the PortMidi backend)."""
+
+    def _open(self, wire=None, **kwargs):
+        self.wire = wire if wire is not None else deque()
+
+    def _send(self, msg):
+        for byte in msg.bytes():
+            self.wire.append(byte)
+
+    def _receive(self, block=True):
+        while self.wire:
+            byte = self.wire.popleft()
+            self._parser.feed_byte(byte)
